@@ -143,6 +143,13 @@ def check(an: Analysis) -> None:
                     for x in ast.walk(t)
                 )
             ]
+            clears = [n for n in stores if isinstance(n.ast, (ast.Assign, ast.AnnAssign)) and isinstance(getattr(n.ast, "value", None), ast.Constant) and n.ast.value.value is None]
+            if not clears:
+                ob.fail(f, own[0].ast, f"{short}.{name} never clears self._token: the same context object cannot be entered again (its re-entrance assertion fires)")
+            else:
+                w = g.must_pass(lambda n: n in clears, starts=[t for o in own for t, lab in o.succ if lab not in ("exc", "reraise")], exits=("exit-return",), skip_edge=normal_only)
+                if w is not None:
+                    ob.fail(f, clears[0].ast, f"a normal path through {short}.{name} leaves self._token set after the reset", CFG.show_path(w))
             if stores:
                 w = g.ordered(lambda n: n in own, lambda n: n in stores)
                 if w is not None:
